@@ -7,11 +7,11 @@ VERIF = os.path.dirname(os.path.dirname(os.path.abspath(__file__)))
 
 TECH = {
  'C01': 'static analysis: algebraic value numbering over MIR (normal-form identity evaluate ≡ Σcᵢxⁱ), fold schema for Horner, rounding-depth counters',
- 'C02': 'static analysis: value-numbered result of Piecewise::evaluate matched against the selection normal form (first-index schema, strict predicate, pass-through)',
+ 'C02': 'static analysis: value-numbered result of Piecewise::evaluate reduced to a piece index; search-domain/predicate normal form (position, find, partition_point+min all accepted); index reduced by linear entailment',
  'C03': 'static analysis: one-step transfer of the evaluator (loop summary + search schemas) translated to a hand-proved reference step; representation, direction, predicate and paired-update rules',
  'C04': 'static analysis: algebraic value numbering (Hermite and Kruger normal-form identities) + stream alignment of the zip/chain/skip assembly pipeline',
  'C05': 'static analysis: guard normal form s01·s12 ≤ 0, positive-coefficient test on slope/secant ratios, imported C04 identities; monotonicity lemma on paper',
- 'C06': 'static analysis: algebraic value numbering of segment/incr_linear + SCAN schema of the stateful map in linear()',
+ 'C06': 'static analysis: the recurrence computed by linear() (SCAN schema, from a stateful map, scan or explicit loop) checked by normal-form identities on a symbolic running knot',
  'C07': 'static analysis: algebraic value numbering over MIR; normal-form identities for indefinite/integral lanes, d/dx identity, knot identity',
  'C08': 'static analysis: algebraic value numbering over MIR; lane normal forms, map/collect traversal schema, `end` value-number identity',
  'C09': 'static analysis: algebraic value numbering over MIR + formal derivation in Q[c][t, ln t, 1/t] (D(F) = p(ln t))',
@@ -22,9 +22,9 @@ TECH = {
  'C14': 'static analysis: algebraic value numbering over MIR; per-lane single-op rule over all 61 operator impls; evaluate∘op ≡ op∘evaluate identity',
  'C15': 'static analysis: FULL-TRAVERSAL loop schema + value-number identities (`end` untouched, piece = T-op(piece)) for Segment/Piecewise operators',
  'C16': 'static analysis: exhaustive panic-site inventory over MIR with per-site discharge (constant folding, dominance, Fourier–Motzkin linear entailment with inferred cursor invariants, documented-rejection table); NaN-taint on evaluator state',
- 'C17': 'static analysis: conjunction/field-coverage/lane/tolerance rules over the value-numbered result of all 30 approx impls',
+ 'C17': 'static analysis: value-numbered boolean result of all 30 approx impls shown propositionally equivalent (truth table over comparison atoms) to the field-by-field conjunction from the ADT table',
  'C18': 'static analysis: impl/derive symmetry over the type-checked program in both feature configurations, helper attributes from the expanded AST, writer/reader tables from generated MIR, type-level witness crate with compile-fail control',
- 'C19': 'static analysis: dominance of the Ok result by the validity guard, sort typestate with comparator summary, SCAN/map pipeline shape, comparator NaN discharge',
+ 'C19': 'static analysis: propositional entailment Ok-guard ⇒ (non-empty ∧ ∀ is_normal), sort typestate with comparator summary, SCAN/map/loop pipeline normal form, comparator NaN discharge',
 }
 
 P = 'DESIGN.md §4 '
@@ -45,7 +45,7 @@ CHECKS = {
    text='Zero-slope guard is exactly s01·s12 ≤ 0 with value 0; with s01 = r·s12 the slope/secant ratios are 2r/(1+r) and 2/(1+r), proved to lie in (0,2) by a positive-coefficient test; end ratios in [1/2, 3/2]; the construction coincides with Kruger\'s formulas (imported C04 verdicts). Monotonicity on each interval then follows from the Fritsch–Carlson region lemma (paper).',
    note='The region lemma is mathematics about the reference, trusted; underflow of s01·s12 outside the standard model.'),
  'C06': dict(cat='proof', ref=P + 'C06',
-   text='segment(k0,k1): end = k1.x verbatim, slope Select((k1.x−k0.x) < EPSILON, 0, dy/dx), P(k0.x) = k0.y on both arms and P(k1.x) = k1.y on the wide arm (normal-form identities); incr_linear forces x := max(prev.x, x), returns segment(prev, forced) and stores the forced knot; linear() is the SCAN of that step over knots[1..] from knots[0] with len−1 outputs.',
+   text='The recurrence linear() computes (whether written as a stateful map, a scan or an explicit loop, with or without helpers) is summarised on a symbolic running knot σ and input knot k: σ₀ = knots[0], pass over knots[1..] in order with len−1 outputs, x′ = max(σ.x, k.x), σ′ = (x′, k.y); the piece has end = x′ verbatim, slope Select((x′−σ.x) < EPSILON, 0, dy/dx), P(σ.x) = σ.y on both arms and P(x′) = k.y on the wide arm (normal-form identities over all reals).',
    note='SCAN induction (running maximum) on paper; f64::max model.'),
  'C07': dict(cat='proof', ref=P + 'C07',
    text='indefinite() lanes are [0, c0, c1/2, …] with at most one rounding each; d/dx of the returned polynomial equals p; integral(knot) evaluates to knot.y at knot.x and differs from indefinite() in the constant only; derivative∘indefinite returns p with ≤ 2 roundings; Segment delegates keeping `end` — all as normal-form identities for every coefficient vector and knot.',
@@ -78,7 +78,7 @@ CHECKS = {
    text='(a) The evaluator\'s step transfer is evaluated under "x is NaN" (every ordered comparison with x false): tail and last_evaluation must be unchanged (or reset to an initial state) and the result a plain piece evaluation — this exposed defect D2 (fixed). (b) Exhaustive inventory of every panic-capable site in all 240 hand-written bodies (267 constant-index checks folded; 46 others): each must be discharged by dominance, by Fourier–Motzkin linear entailment from the path facts with inferred cursor invariants, by the NaN-freedom argument, or be one of the documented rejections; any new unwrap/index/assert/arithmetic site is a finding.',
    note='Models state std panic preconditions completely; allocation failure aborts; T\'s own methods are uninterpreted (in-crate instantiations are analysed separately).'),
  'C17': dict(cat='proof', ref=P + 'C17',
-   text='All 30 AbsDiffEq/RelativeEq impls: the boolean result is a pure conjunction with exactly one conjunct per field of the ADT (from the ADT table), each comparing self.f with other.f through the same relation with eps/max_relative passed through unchanged; arrays/Vec fields go through the slice impl that carries the length check; default_* forward the f64 defaults.',
+   text='All 30 AbsDiffEq/RelativeEq impls: the value-numbered boolean result is proved propositionally equivalent (truth table over its comparison atoms) to the conjunction over every field of the ADT (from the ADT table) of self.f ~ other.f with eps/max_relative passed through unchanged; sequence fields may go through the slice impl, element by element (fixed arrays), or an explicit length check plus element-wise all; default_* forward the f64 defaults. Any written form of the same relation is accepted; dropping a field, comparing a value with itself, swapping tolerances, || for &&, or losing the length check is not.',
    note='approx 0.5.1 f64 and slice impls are trusted (modelled as uninterpreted relations).'),
  'C18': dict(cat='other', ref=P + 'C18',
    text='Writer/reader agreement decided structurally in both feature configurations: for each of the 15 serialisable ADTs both serde impls (and both borsh impls under the feature) exist and expand from derives on that item; no asymmetric or lossy helper attribute on item or field (expanded AST); the generated writer and reader tables (names, counts) agree; a witness crate type-checks Serialize+DeserializeOwned / BorshSerialize+BorshDeserialize for 26 instantiations, with a compile-fail control in the thorough tier.',
